@@ -267,6 +267,12 @@ class Lowering:
                 return c
         return None
 
+    def ext_name(self, ext):
+        return ext['c'] if isinstance(ext, dict) else ext
+
+    def ext_byval(self, ext):
+        return isinstance(ext, dict) and ext.get('by_value', False)
+
     # ------------------------------------------------------------------ types
     def ctype(self, t, n=None):
         """C spelling of C++ type string t (desugared where possible)."""
@@ -286,8 +292,7 @@ class Lowering:
             return 'const ' + self.ctype(t[:-6])
         const = ''
         if t.startswith('const '):
-            const = 'const '
-            t = t[6:].strip()
+            return 'const ' + self.ctype(t[6:].strip())
         for kw in ('struct ', 'class ', 'enum ', 'union '):
             if t.startswith(kw):
                 t = t[len(kw):]
@@ -303,6 +308,12 @@ class Lowering:
         if en is not None:
             return const + self.enum_cname(en)
         raise Unsupported('type %r has no C mapping' % t)
+
+    def mapped_scalar(self, t):
+        for pat, c in self.typemap.items():
+            if re.fullmatch(pat, t) and not self.typemap_is_record(pat):
+                return c
+        return None
 
     def find_record(self, qname):
         for nid, q in self.tu.qual.items():
@@ -669,16 +680,17 @@ class Lowering:
         if lc is None:
             return []
         fs.used_lc = getattr(fs, 'used_lc', set()) | {fs.loopn}
-        return ['/* loop contract #%d (from spec, keyed by function and loop ordinal) */' % fs.loopn] + \
-               lc.strip().split('\n')
+        return ['/* loop contract #%d (from spec, keyed by function and loop ordinal) */' % fs.loopn,
+                '#ifdef VERIF_CBMC'] + lc.strip().split('\n') + ['#endif']
 
     def s_WhileStmt(self, n, fs):
         ks = kids(n)
         ctx = Ctx(fs)
         c = self.cond(ks[0], ctx)
-        if ctx.pre:
-            raise Unsupported('while condition needs hoisting at %s' % (self.tu.where(n),))
         lc = self.loop_contract(fs)
+        if ctx.pre:
+            # condition needs statements: while (1) { pre; if (!c) break; body }
+            return ['while (1)'] + lc + ['{'] + self.indent(ctx.pre + ['if (!(%s)) break;' % c] + self.block(ks[1], fs), 1) + ['}']
         return ['while (%s)' % c] + lc + self.block(ks[1], fs)
 
     def s_DoStmt(self, n, fs):
@@ -696,6 +708,7 @@ class Lowering:
         ks = kids(n)
         # inner: init, condvar, cond, inc, body
         init, condvar, cond, inc, body = ks[0], ks[1], ks[2], ks[3], ks[4]
+        condpre = []
         out = ['{']
         if init.get('kind'):
             out += self.indent(self.stmt(init, fs), 1)
@@ -706,7 +719,8 @@ class Lowering:
             ctx = Ctx(fs)
             c = self.cond(cond, ctx)
             if ctx.pre:
-                raise Unsupported('for condition needs hoisting at %s' % (self.tu.where(n),))
+                condpre = ctx.pre + ['if (!(%s)) break;' % c]
+                c = '1'
         i = ''
         if inc.get('kind'):
             ctx = Ctx(fs)
@@ -714,7 +728,10 @@ class Lowering:
             if ctx.pre:
                 raise Unsupported('for increment needs hoisting')
         lc = self.loop_contract(fs)
-        out += self.indent(['for (; %s; %s)' % (c, i)] + lc + self.block(body, fs), 1)
+        if condpre:
+            out += self.indent(['for (; %s; %s)' % (c, i)] + lc + ['{'] + self.indent(condpre + self.block(body, fs), 1) + ['}'], 1)
+        else:
+            out += self.indent(['for (; %s; %s)' % (c, i)] + lc + self.block(body, fs), 1)
         out.append('}')
         return out
 
@@ -949,8 +966,8 @@ class Lowering:
         ext = self.extern_for(q)
         if ext:
             if q not in [e['cxx'] for e in self.report['externals']]:
-                self.report['externals'].append({'cxx': q, 'c': ext})
-            return ext
+                self.report['externals'].append({'cxx': q, 'c': self.ext_name(ext)})
+            return self.ext_name(ext)
         return self.cname_for(d)
 
     def e_MemberExpr(self, n, ctx):
@@ -1153,6 +1170,10 @@ class Lowering:
             return self.expr(ks[0], ctx)
         if not self.is_record_type(t) and len(ks) == 0:
             return '((%s)0)' % self.ctype(t)
+        if not ks:
+            rec = self.find_record(self.strip_cvref(t))
+            if rec is not None:
+                return self.default_value(rec)
         vals = [self.expr(k, ctx) for k in ks]
         return '((%s){%s})' % (self.ctype(t), ', '.join(vals) if vals else '0')
 
@@ -1182,6 +1203,13 @@ class Lowering:
         t = ty(n)
         ctor_t = n['ctorType']['qualType']
         args = kids(n)
+        mapped = self.mapped_scalar(self.strip_cvref(t))
+        if mapped is not None:
+            if len(args) == 0:
+                return '((%s)0)' % mapped
+            if len(args) == 1:
+                return '((%s)%s)' % (mapped, self.expr(args[0], ctx))
+            raise Unsupported('construction of mapped scalar type %s with %d args' % (t, len(args)))
         rec = self.find_record(self.strip_cvref(t))
         ext = self.extern_for(self.strip_cvref(t) + '::' + 'ctor|' + ctor_t)
         if ext:
@@ -1195,6 +1223,8 @@ class Lowering:
             ctor = self.find_ctor(rec, ctor_t)
             if ctor is None or ctor.get('isImplicit') or ctor.get('explicitlyDefaulted'):
                 a = args[0]
+                if self.has_modelled_member(rec) and not self.is_temporary(a) and '&&' not in ctor_t:
+                    raise Unsupported('copy of %s from an lvalue needs a deep-copy model (cfg.record_copy)' % q)
                 e = self.expr(a, ctx)
                 return e
         ctor = self.find_ctor(rec, ctor_t)
@@ -1202,7 +1232,7 @@ class Lowering:
             raise Unsupported('constructor %s of %s not found' % (ctor_t, q))
         if ctor.get('isImplicit') or ctor.get('explicitlyDefaulted'):
             if not args:
-                return self.dummy(self.record_cname(rec))
+                return self.default_value(rec)
             raise Unsupported('implicit non-copy constructor %s' % ctor_t)
         cn = self.cname_for(ctor)
         self.note_call(ctor)
@@ -1211,6 +1241,44 @@ class Lowering:
 
     def e_CXXTemporaryObjectExpr(self, n, ctx):
         return self.e_CXXConstructExpr(n, ctx)
+
+    def is_temporary(self, a):
+        while a.get('kind') in ('ImplicitCastExpr', 'ParenExpr', 'ExprWithCleanups'):
+            a = kids(a)[0]
+        return a.get('kind') == 'MaterializeTemporaryExpr' or a.get('valueCategory') == 'prvalue' \
+            or (a.get('kind') == 'DeclRefExpr' and a.get('valueCategory') == 'xvalue')
+
+    def has_modelled_member(self, rec):
+        rd = self.cfg.get('record_default', {})
+        for b in rec.get('bases') or []:
+            bt = b['type'].get('desugaredQualType') or b['type']['qualType']
+            if self.ctype(bt) in rd:
+                return True
+        for k in kids(rec):
+            if k.get('kind') == 'FieldDecl' and k.get('name'):
+                try:
+                    if self.ctype(ty(k)) in rd:
+                        return True
+                except Unsupported:
+                    pass
+        return False
+
+    def default_value(self, rec):
+        """Value of an implicitly default-constructed record: members whose C type has a modelled
+        default (cfg.record_default) get it, everything else is zero."""
+        cn = self.record_cname(rec)
+        rd = self.cfg.get('record_default', {})
+        if not self.has_modelled_member(rec):
+            return self.dummy(cn)
+        parts = []
+        for i, b in enumerate(rec.get('bases') or []):
+            bt = self.ctype(b['type'].get('desugaredQualType') or b['type']['qualType'])
+            if bt in rd:
+                parts.append('.__base%d = %s' % (i, rd[bt]))
+        for k in kids(rec):
+            if k.get('kind') == 'FieldDecl' and k.get('name') and self.ctype(ty(k)) in rd:
+                parts.append('.%s = %s' % (k['name'], rd[self.ctype(ty(k))]))
+        return '((%s){%s})' % (cn, ', '.join(parts))
 
     def find_ctor(self, rec, ctor_t):
         for k in kids(rec):
@@ -1291,9 +1359,19 @@ class Lowering:
         decl, mem = self.callee_decl(n)
         return self.call(decl, None, kids(n)[1:], n, ctx, discard)
 
+    def this_by_value(self, decl):
+        d = self.tu.definition(decl)
+        ext = self.extern_for(self.tu.qualname(d))
+        return ext is not None and self.ext_byval(ext)
+
     def e_CXXMemberCallExpr(self, n, ctx, discard=False):
         decl, mem = self.callee_decl(n)
         obj = kids(mem)[0]
+        if self.this_by_value(decl):
+            this = self.expr(obj, ctx)
+            if mem.get('isArrow'):
+                this = '(*%s)' % this
+            return self.call(decl, this, kids(n)[1:], n, ctx, discard)
         if mem.get('isArrow'):
             this = self.expr(obj, ctx)
         else:
@@ -1328,7 +1406,10 @@ class Lowering:
                 rhs = self.expr(args[1], ctx)
                 return '(%s = %s)' % (lhs, rhs)
             obj = args[0]
-            this = self.addr_of(obj, ctx) if self.is_lvalue(obj) else self.addr_of_temp(obj, ctx)
+            if self.this_by_value(decl):
+                this = self.expr(obj, ctx)
+            else:
+                this = self.addr_of(obj, ctx) if self.is_lvalue(obj) else self.addr_of_temp(obj, ctx)
             return self.call(decl, this, args[1:], n, ctx, discard)
         return self.call(decl, None, args, n, ctx, discard)
 
@@ -1363,17 +1444,23 @@ class Lowering:
         fq = d['type'].get('desugaredQualType') or d['type']['qualType']
         if ext:
             if not vm and q not in [e['cxx'] for e in self.report['externals']]:
-                self.report['externals'].append({'cxx': q, 'c': ext})
-            argv = ([this] if this is not None else []) + self.call_args(d, args, ctx)
-            e = '%s(%s)' % (ext, ', '.join(argv))
+                self.report['externals'].append({'cxx': q, 'c': self.ext_name(ext)})
+            if self.ext_byval(ext):
+                argv = ([this] if this is not None else []) + [self.expr(a, ctx) for a in args]
+            else:
+                argv = ([this] if this is not None else []) + self.call_args(d, args, ctx)
+            e = '%s(%s)' % (self.ext_name(ext), ', '.join(argv))
         else:
-            rett = self.ret_ctype(d)
+            try:
+                rett = self.ret_ctype(d)
+            except Unsupported as e:
+                raise Unsupported('%s (while lowering call to %s : %s)' % (e, q, d['type']['qualType']))
             cn = self.cname_for(d)
             self.note_call(d)
             argv = ([this] if this is not None else []) + self.call_args(d, args, ctx)
             e = self.emit_call(d, cn, argv, rett, ctx, discard)
-        # functions returning references yield lvalues
-        if self.returns_ref(fq):
+        # functions returning references yield glvalues (clang tells us; the declared type may be sugar)
+        if n.get('valueCategory') in ('lvalue', 'xvalue') or self.returns_ref(fq):
             return '(*%s)' % e
         return e
 
